@@ -265,6 +265,10 @@ def main(argv):
             print('UNDECIDED ' + u[:400])
         print('  (%d undecided in total)' % len(undecided))
         rc = 2
+    if rc == 0 and tot_dis != tot_obl:
+        print('ENGINE-ERROR obligation accounting: %d generated, %d discharged, none reported as refuted or undecided'
+              % (tot_obl, tot_dis))
+        rc = 3
     if rc == 0:
         print('OK %s: %d/%d obligations discharged in %.1fs' % (pid, tot_dis, tot_obl, wall))
 
